@@ -499,18 +499,7 @@ func init() {
 		}
 		return st.NumFields()
 	})
-	field := func(r rval, k int) rval {
-		st := r.t.Underlying().(*types.Struct)
-		f := st.Field(k)
-		sticky := r.ro && !r.emb
-		out := rval{t: f.Type(), ro: sticky || !f.Exported(), emb: !sticky && !f.Exported() && f.Anonymous()}
-		if r.addr != nil {
-			out.addr = &(*r.addr).(structure)[k]
-		} else {
-			out.v = r.v.(structure)[k]
-		}
-		return out
-	}
+	field := reflectField
 	reg("(reflect.Value).Field", func(i *interpreter, fr *frame, args []value) value {
 		r := args[0].(rval)
 		r.mustValid("Field")
@@ -935,4 +924,17 @@ func init() {
 		}
 		return int(at.Len())
 	})
+}
+
+func reflectField(r rval, k int) rval {
+	st := r.t.Underlying().(*types.Struct)
+	f := st.Field(k)
+	sticky := r.ro && !r.emb
+	out := rval{t: f.Type(), ro: sticky || !f.Exported(), emb: !sticky && !f.Exported() && f.Anonymous()}
+	if r.addr != nil {
+		out.addr = &(*r.addr).(structure)[k]
+	} else {
+		out.v = r.v.(structure)[k]
+	}
+	return out
 }
